@@ -223,25 +223,21 @@ theorem validTo_total (h : Hdrs) (now : Int) : ∃ t, validTo Fixes.all h now = 
 
 /-! ### the combined listener is C03's step (possibly on a message whose max-age is saturated) -/
 
-/-- what `listenerStep` runs the tracker model on -/
+/-- the repaired listener never raises: it IS the tracker model's step on the parsed event -/
 theorem listenerStep_spec (trk : C03.Cfg) (sockA : Bool) (t : Tracker) (h : Hdrs) :
-    ∃ e, listenerStep Fixes.all trk sockA t h = .ok (C03.step ipv (C03.Parse.skipHdr trk) t e)
-      ∧ (e = C03.Parse.parseEv trk sockA (pairsOf h)
-         ∨ ∃ m vt, C03.Parse.parseEv trk sockA (pairsOf h) = .msg m ∧ e = .msg { m with maxAge := vt - m.ts }
-             ∧ reachesValidTo m = true) := by
+    listenerStep Fixes.all trk sockA t h
+      = .ok (C03.step ipv (C03.Parse.skipHdr trk) t (C03.Parse.parseEv trk sockA (pairsOf h))) := by
   unfold listenerStep
   dsimp only
-  cases hp : C03.Parse.parseEv trk sockA (pairsOf h) with
+  cases C03.Parse.parseEv trk sockA (pairsOf h) with
   | msg m =>
     dsimp only
     by_cases hc : reachesValidTo m = true
     · obtain ⟨vt, hv⟩ := validTo_total h m.ts
       simp only [hc, if_true, hv]
-      exact ⟨_, rfl, Or.inr ⟨m, vt, rfl, rfl, hc⟩⟩
     · simp only [hc, Bool.false_eq_true, if_false]
-      exact ⟨_, rfl, Or.inl rfl⟩
-  | purge n => exact ⟨_, rfl, Or.inl rfl⟩
-  | noise n => exact ⟨_, rfl, Or.inl rfl⟩
+  | purge n => rfl
+  | noise n => rfl
 
 theorem respond_total (delay : Int) (count : Nat) : ∃ e, respond Fixes.all delay count = .ok e := by
   unfold respond
